@@ -7,6 +7,13 @@ import TzVerif.Generated.Consts
 
 namespace TzVerif.Model
 
+instance {ε α} [DecidableEq ε] [DecidableEq α] : DecidableEq (Except ε α) := fun a b =>
+  match a, b with
+  | .ok x, .ok y => if h : x = y then isTrue (by rw [h]) else isFalse (by intro e; cases e; exact h rfl)
+  | .error x, .error y => if h : x = y then isTrue (by rw [h]) else isFalse (by intro e; cases e; exact h rfl)
+  | .ok _, .error _ => isFalse (by intro e; cases e)
+  | .error _, .ok _ => isFalse (by intro e; cases e)
+
 def i64Min : Int := -9223372036854775808
 def i64Max : Int := 9223372036854775807
 def i32Min : Int := -2147483648
